@@ -152,6 +152,20 @@ class TestResult(unittest.TestResult):
     def addSuccess(self, test, details=None):
         """Called when a test succeeded."""
 
+    def addSubTest(self, test, subtest, err):
+        """Called by unittest at the end of a subtest (``TestCase.subTest``).
+
+        A subtest that failed is a failure or an error of its own, reported
+        through `addFailure` / `addError` - which is what results that forward
+        or convert outcomes override.  (The method inherited from unittest
+        would only file it in this object's own lists.)
+        """
+        if err is not None:
+            if issubclass(err[0], test.failureException):
+                self.addFailure(subtest, err)
+            else:
+                self.addError(subtest, err)
+
     def addUnexpectedSuccess(self, test, details=None):
         """Called when a test was expected to fail, but succeed."""
         self.unexpectedSuccesses.append(test)
